@@ -151,9 +151,10 @@ VARIANTS += [
     ("C07-py-wrap", "C07", ISO, "        ordinal += days_in_year(year - 1)\n", "        ordinal += days_in_year(year)\n", "WEEKDATE.wrap"),
     ("C07-rs-wrap", "C07", RSP, "            ord -= days_in_year(y as i32) as i32;\n            y += 1;", "            ord -= days_in_year(y as i32) as i32;", "WEEKDATE.wrap"),
     ("C07-py-fraction-pad", "C07", ISO, 'microsecond = int(f"{subsecond:0<6}")', 'microsecond = int(f"{subsecond:0>6}")', "FRACTION"),
-    ("C07-rs-fraction-7", "C07", RSP, "                        // Expand missing microsecond\n                        while i < 6 {\n                            datetime.microsecond *= 10;\n                            i += 1;\n                        }\n                    }\n\n                    if !datetime.extended_date_format", "                        // Expand missing microsecond\n                        while i < 5 {\n                            datetime.microsecond *= 10;\n                            i += 1;\n                        }\n                    }\n\n                    if !datetime.extended_date_format", "FRACTION"),
+    ("C07-rs-fraction-7", "C07", RSP, "                        // Expand missing microsecond\n                        while i < 6 {\n                            datetime.microsecond *= 10;\n                            i += 1;\n                        }\n                    }\n\n                    if datetime.has_date && !datetime.extended_date_format", "                        // Expand missing microsecond\n                        while i < 5 {\n                            datetime.microsecond *= 10;\n                            i += 1;\n                        }\n                    }\n\n                    if datetime.has_date && !datetime.extended_date_format", "FRACTION"),
     ("C07-py-offset-sign", "C07", ISO, '            negative = bool(tz.startswith("-"))', '            negative = bool(tz.startswith("+"))', "OFFSET.parse"),
     ("C07-fmt-offset-clone", "C07", FMT, "            offset = ((int(off_hour) * 60) + int(off_minute)) * 60", "            offset = ((int(off_hour) * 60) + int(off_minute)) * 6", "OFFSET.parse"),
+    ("C07-rs-T-extended", "C07", RSP, "                    if datetime.has_date && !datetime.extended_date_format {", "                    if !datetime.extended_date_format {", "RSISO.tabulated"),
     ("C07-rs-offset", "C07", RSP, "            tzminute += tzhour * 60;", "            tzminute += tzhour * 6;", "OFFSET.parse"),
     ("C07-rs-offset-sign", "C07", RSP, "let tzsign = if self.current == '+' { 1 } else { -1 };", "let tzsign = if self.current == '-' { 1 } else { -1 };", "OFFSET.parse"),
     ("C07-parser-swap", "C07", PARSER, "            parsed.minute,\n            parsed.second,\n            parsed.microsecond,\n            tz=parsed.tzinfo", "            parsed.second,\n            parsed.minute,\n            parsed.microsecond,\n            tz=parsed.tzinfo", "RECON.slot"),
